@@ -154,6 +154,52 @@ theorem RangeCursor.iteratorScan_spec (R : RangeCursor ops inv rest s0 all rev) 
       simp only [hke', Bool.false_eq_true, if_false]
       rw [R.cursor.scanLoop_spec count hi (by rw [hr]; simp; omega), hr]
 
+theorem Cursor.skipDeleted_spec (C : Cursor ops inv rest) {fuel : Nat} {s : σ} (hi : inv s)
+    (hf : (rest s).length < fuel) :
+    ∃ s', skipDeleted ops fuel s = some s' ∧ inv s'
+      ∧ rest s' = (rest s).dropWhile (fun e => isDeleted e.2) := by
+  induction fuel generalizing s with
+  | zero => omega
+  | succ n ih =>
+    cases hr : rest s with
+    | nil =>
+      refine ⟨s, ?_, hi, by simp [hr]⟩
+      simp [skipDeleted, C.valid_false hi hr]
+    | cons e r =>
+      obtain ⟨_, hv⟩ := C.head s e r hi hr
+      obtain ⟨hi', hr'⟩ := C.next s e r hi hr
+      by_cases hd : isDeleted e.2 = true
+      · have hf' : (rest (ops.next s).1).length < n := by rw [hr']; rw [hr] at hf; simp at hf; omega
+        obtain ⟨s', h1, h2, h3⟩ := ih hi' hf'
+        refine ⟨s', ?_, h2, ?_⟩
+        · simp [skipDeleted, C.valid_true hi hr, hv, hd, h1]
+        · rw [h3, hr']; simp [List.dropWhile_cons, hd]
+      · refine ⟨s, ?_, hi, ?_⟩
+        · simp [skipDeleted, hv, hd]
+        · rw [hr]; simp [List.dropWhile_cons, hd]
+
+/-- the answer of the special `ListSeek` request on the entries `D` at/after the seek point. -/
+def seekAnswer (D : List Entry) : List Bytes :=
+  match D.dropWhile (fun e => isDeleted e.2) with
+  | e :: _ => [e.1, e.2]
+  | [] => []
+
+theorem RangeCursor.nextKeyValue_spec (R : RangeCursor ops inv rest s0 all rev) {fuel : Nat}
+    (hf : all.length < fuel) (key : Bytes) :
+    nextKeyValue ops fuel s0 key = some (seekAnswer (all.dropWhile (before rev key))) := by
+  unfold nextKeyValue seekAnswer
+  obtain ⟨hi, hr⟩ := R.seek key
+  have hlen := dropWhile_length_le (before rev key) all
+  obtain ⟨s', h1, h2, h3⟩ := R.cursor.skipDeleted_spec (fuel := fuel) hi (by rw [hr]; omega)
+  rw [h1]
+  simp only
+  rw [← hr, ← h3]
+  cases hd : rest s' with
+  | nil => simp [R.cursor.valid_false h2 hd]
+  | cons e r =>
+    obtain ⟨hk, hv⟩ := R.cursor.head s' e r h2 hd
+    simp [R.cursor.valid_true h2 hd, hk, hv]
+
 theorem RangeCursor.prefixCount_spec (R : RangeCursor ops inv rest s0 all rev) {fuel : Nat}
     (hf : all.length < fuel) :
     prefixCount ops fuel s0 = some (live all).length := by
@@ -175,5 +221,28 @@ theorem iterRangeCursor {it : Iter} (h : it.WF) :
   cursor := iterCursor
   rewind := ⟨(Iter.rewind_rest h).1, (Iter.rewind_rest h).2.1⟩
   seek := fun k => ⟨(Iter.seek_rest h k).1, (Iter.seek_rest h k).2.1⟩
+
+/-- everything `ListHelper.List` can answer, as a function of the ordered entry list
+(`allOf rev` = the entries under the prefix in ascending / descending order). -/
+def listSpec (allOf : Bool → List Entry) (key : Bytes) (count dir : Nat) : List Bytes :=
+  if !key.isEmpty && count == 1 && dir == ListSeek then seekAnswer ((allOf true).dropWhile (before true key))
+  else encodeItems dir (takeC count 0 (live (remaining (allOf (!isASC dir)) (!isASC dir) key)))
+
+theorem list_spec_of_cursors {σ : Type} {ops : ItOps σ} {inv : Bool → σ → Prop} {rest : σ → List Entry}
+    {mk : Bool → σ} {allOf : Bool → List Entry}
+    (R : ∀ rev, RangeCursor ops (inv rev) rest (mk rev) (allOf rev) rev) {fuel : Nat}
+    (hf : ∀ rev, (allOf rev).length < fuel) (key : Bytes) (count dir : Nat) :
+    list ops mk fuel key count dir = some (listSpec allOf key count dir) := by
+  unfold list listSpec
+  by_cases hc : (!key.isEmpty && count == 1 && dir == ListSeek) = true
+  · rw [if_pos hc, if_pos hc]
+    exact (R true).nextKeyValue_spec (hf true) key
+  · rw [if_neg hc, if_neg hc]
+    unfold listEntries remaining
+    by_cases hk : key.isEmpty = true
+    · simp only [hk, if_true]
+      rw [(R (!isASC dir)).scanFromEnd_spec (hf _) count]; rfl
+    · simp only [hk, Bool.false_eq_true, if_false]
+      rw [(R (!isASC dir)).iteratorScan_spec (hf _) key count]; rfl
 
 end C07
